@@ -4,6 +4,7 @@
   interprets `Generated.parseSteps` itself, so the theorems of Props/C09 are about the extracted
   order; these lemmas make a change visible as a named failure rather than as a broken proof.)
 -/
+import Glb.Generated.StatusConfig
 import Glb.Model.Config
 
 namespace Glb.Tie.Config
@@ -35,5 +36,8 @@ theorem builtin_names :
     `group+field.Name+"_"`, and parseConfigJson tries the `-config` path, then CFG_CONFIG_B64 -/
 theorem source_shapes :
     Generated.envExprOK = true ∧ Generated.groupExprOK = true ∧ Generated.carrierOrderOK = true := by decide
+
+/-- the extractor of this area recognised the source as it is on this run (a refusal removes `ok`) -/
+theorem extractor_ok : Glb.Generated.StatusConfig.ok = () := rfl
 
 end Glb.Tie.Config
